@@ -116,20 +116,18 @@ Print Assumptions C03_compiled_builtin_call_any_history.
 (* ---- user functions (one parameter, the body a pure expression of it and of the globals) ---- *)
 Require Import Calc.LExprSem.
 
-(* what the function returns depends on the argument value and the global data only *)
-Theorem C03_user_function_result : forall Bf n W nm e W' res,
-  bop_of_name nm = None ->
-  ssem Bf n W (NCall (NName nm) [e]) = Some (W', res) ->
+(* what the function returns depends on the argument values and the global data only: the meaning of a
+   call of a user function is ucall_sem — the arguments' values xs, then lden xs G body — and it leaves the
+   globals, the output and the input as they were *)
+Theorem C03_user_function_result : forall Bf n W nm args W' res,
+  ucall_sem Bf n W nm args = Some (W', res) ->
   exists body, ft_body Bf nm = Some body /\
-    match den (w_glob W) e with
-    | Ok x => res = lden [x] (w_glob W) body /\ w_glob W' = w_glob W /\ w_out W' = w_out W /\ w_in W' = w_in W
-    | Fail err => res = Fail err /\ W' = W
+    w_glob W' = w_glob W /\ w_out W' = w_out W /\ w_in W' = w_in W /\
+    match seq_res (den (w_glob W)) args with
+    | Ok xs => res = Fail ErrArity \/ res = lden xs (w_glob W) body
+    | Fail err => res = Fail err
     end.
-Proof.
-  intros Bf n W nm e W' res Hb H. apply (ssem_ucall Bf _ _ _ _ _ _ Hb) in H.
-  destruct H as (body & mo & fid & Hbody & _ & _ & _ & _ & H). exists body. split; [exact Hbody|].
-  destruct (den (w_glob W) e) as [x|err]; [destruct H as (-> & -> & _)|destruct H as [-> ->]]; repeat split.
-Qed.
+Proof. exact ucall_sem_facts. Qed.
 Print Assumptions C03_user_function_result.
 
 (* the compiled call computes it from ANY machine state: any stack depth, any dead cells, growth or not *)
